@@ -149,6 +149,7 @@ func init() {
 		run: func(c *Ctx) {
 			runG4(c.Repo, c.Rep)
 			runG5(c.Repo, c.Rep)
+			g16RewriteGuard(c.Repo, c.Rep)
 			g7Table(c)
 			c.Rep.floor("G4", 10)
 			c.Rep.floor("G5", 6)
